@@ -877,6 +877,11 @@ func (st *Stack) Clean() error {
 
 		fn := filepath.Join(st.reftableDir, name)
 		bs, err := NewFileBlockSource(fn)
+		if os.IsNotExist(err) {
+			// Removed in the meantime, eg. by a compaction
+			// deleting its inputs.
+			continue
+		}
 		if err != nil {
 			return err
 		}
